@@ -9,7 +9,7 @@ BUDGET = {'quick': 45, 'thorough': 450}
 SHARDS = {'quick': 8, 'thorough': 16}
 RULE = ('cases: recipes (plain-data construction programs) for values: None/Ellipsis/bool/int/float(+-0, nan, inf)/complex/str/bytes/tuple/list/set/frozenset/dict, '
         'frozendict, frozenmultiset, numpy scalars of several widths, ndarray (dtypes, shapes, C/F order, views, byte-swapped), arraydata, hashable_function, builtin types, '
-        'Immutable/Singleton/DataClass subclasses (positional/keyword/defaulted arguments, version), evaluable nodes (via G_ev programs), meshes/topologies, transforms, references, '
+        'Immutable/Singleton/DataClass subclasses (positional/keyword/defaulted arguments, **kwargs in permuted order, falsy container dataclasses, version), evaluable nodes (via G_ev programs), meshes/topologies, transforms, references, '
         'points, samples, solver methods. (pairs) value vs one structural mutation of it (regrouped nesting, container kind, leaf type confusion, same bytes under another '
         'dtype/shape, str vs bytes, multiplicity, other class) or vs an alternative construction route of the same value (keyword vs positional, int32 vs int64 arraydata input, '
         'numpy vs python scalar, insertion order of sets/dicts/multisets, pickle round trip): nutils_hash equal <=> reference canonical forms equal. (process) batches of recipes '
